@@ -37,8 +37,38 @@ def gen_T19():
     need([ast.unparse(x) for x in ifs[0].body] == ['self._reallyDie()'], 'Irc.die: the if body is not  self._reallyDie()')
     need([ast.unparse(x) for x in die.body if not (isinstance(x, ast.Expr) and isinstance(x.value, ast.Constant))][0] == 'self.zombie = True',
          'Irc.die: does not start with  self.zombie = True')
+    # Irc.takeMsg: the selection chain  fastqueue / queue (throttle test nested inside, a throttled call stops there) /
+    # keep-alive PING (reached only with both queues empty), pinned exactly
+    tk = find_def(t, 'takeMsg', 'Irc')
+    chain = [n for n in tk.body if isinstance(n, ast.If) and ast.unparse(n.test) == 'self.fastqueue']
+    need(len(chain) == 1, 'Irc.takeMsg: expected one  if self.fastqueue:  at top level')
+    c0 = chain[0]
+    need([ast.unparse(x) for x in c0.body] == ['msg = self.fastqueue.dequeue()'], 'Irc.takeMsg: fastqueue branch changed')
+    need(len(c0.orelse) == 1 and isinstance(c0.orelse[0], ast.If) and ast.unparse(c0.orelse[0].test) == 'self.queue',
+         'Irc.takeMsg: the second branch is not  elif self.queue:  (the throttle test must be nested inside it)')
+    c1 = c0.orelse[0]
+    need(len(c1.body) == 1 and isinstance(c1.body[0], ast.If)
+         and ast.unparse(c1.body[0].test) == 'now - self.lastTake <= conf.supybot.protocols.irc.throttleTime()',
+         'Irc.takeMsg: elif self.queue: must contain exactly the nested throttle test  now-self.lastTake <= throttleTime()')
+    thr = c1.body[0]
+    need(all(isinstance(x, ast.Expr) and ast.unparse(x).startswith('log.') for x in thr.body),
+         'Irc.takeMsg: the throttled branch does more than log')
+    need([ast.unparse(x) for x in thr.orelse] == ['self.lastTake = now', 'msg = self.queue.dequeue()'],
+         'Irc.takeMsg: the un-throttled branch is not  self.lastTake = now; msg = self.queue.dequeue()')
+    need(len(c1.orelse) == 1 and isinstance(c1.orelse[0], ast.If) and not c1.orelse[0].orelse
+         and ast.unparse(c1.orelse[0].test) == 'self.afterConnect and conf.supybot.protocols.irc.ping() and '
+                                               '(now > self.lastping + conf.supybot.protocols.irc.ping.interval())',
+         'Irc.takeMsg: the keep-alive branch test changed')
+    ka = c1.orelse[0]
+    need(len(ka.body) == 1 and isinstance(ka.body[0], ast.If) and ast.unparse(ka.body[0].test) == 'self.outstandingPing'
+         and [ast.unparse(x) for x in ka.body[0].body][-2:] == ['self.feedMsg(ircmsgs.error(s))', 'self.driver.reconnect()']
+         and len(ka.body[0].orelse) == 1 and isinstance(ka.body[0].orelse[0], ast.If)
+         and ast.unparse(ka.body[0].orelse[0].test) == 'not self.zombie' and not ka.body[0].orelse[0].orelse,
+         'Irc.takeMsg: the keep-alive branch (outstandingPing -> reconnect / not zombie -> queue a PING) changed')
     out = 'Definition HIGH : list (list N) :=\n  %s.\n' % clist(cstr(x) for x in high)
     out += 'Definition LOW : list (list N) :=\n  %s.\n' % clist(cstr(x) for x in low)
     out += 'Definition JOIN_CMD : list N := %s.\n' % cstr(join)
+    out += '(* Irc.takeMsg selection chain as pinned: Model.take_body mirrors it *)\nDefinition TAKE_CHAIN : list (list N) := %s.\n' % clist(
+        cstr(x) for x in [ast.unparse(c0.test), ast.unparse(c1.test), ast.unparse(thr.test), ast.unparse(ka.test)])
     out += '(* Irc.die closes at once iff this test holds; Model.die mirrors it *)\nDefinition DIE_AT_ONCE_TEST : list N := %s.\n' % cstr(ast.unparse(ifs[0].test))
     return 'src/irclib.py', out
